@@ -122,6 +122,23 @@ def xpairs():
     return out
 
 
+def recip_edge_dests(a, pool):
+    """destinations D (From<S> legal, wider) for which the reciprocal of ONE ULP of S sits exactly at / one past /
+    one below D's range: magnitude bits of D == F_S + {0, 1, -1}.  This is the type-pair edge of the
+    'reciprocal not representable' clause of C13/C14 (seeded change C14-E showed that randomly chosen
+    destinations never sit there)."""
+    out = []
+    for b in pool:
+        if b == a or b[1] <= a[1]:
+            continue
+        if (b[1] - b[2]) < (a[1] - a[2]) or b[2] < a[2] or b[0] != a[0]:
+            continue
+        mag = (b[1] - b[2]) - (1 if b[0] else 0)
+        if mag - a[2] in (-1, 0, 1):
+            out.append(b)
+    return out
+
+
 def write_layouts():
     L = ["// GENERATED by gen_layouts.py -- do not edit\n"]
 
@@ -152,7 +169,12 @@ def write_layouts():
                 fam(a[0], a[1]), a[2], "true" if a[0] else "false", a[1], a[2],
                 fam(b[0], b[1]), b[2], "true" if b[0] else "false", b[1], b[2]))
         L.append("}; }\n")
-    emit_pairs("tq", TRANS_QUICK_PAIRS)
+    qp = list(TRANS_QUICK_PAIRS)
+    for a in TRANS_QUICK_S[:4] + TRANS_QUICK_U[:2]:
+        for b in recip_edge_dests(a, ts if a[0] else tu):
+            if (a, b) not in qp:
+                qp.append((a, b))
+    emit_pairs("tq", qp)
     # thorough pairs: every S with a deterministic selection of wider D (From<S> needs
     # int bits and frac bits both >=)
     import random
@@ -163,6 +185,9 @@ def write_layouts():
             cands = [b for b in lst if b != a and (b[1] - b[2]) >= (a[1] - a[2]) and b[2] >= a[2]]
             if cands:
                 for b in rnd.sample(cands, min(2, len(cands))):
+                    allp.append((a, b))
+            for b in recip_edge_dests(a, lst):
+                if (a, b) not in allp:
                     allp.append((a, b))
     for i in range(k):
         emit_pairs("tp%d" % i, allp[i::k])
